@@ -243,7 +243,7 @@ CLASS_RANGES = {
     "json_escape": [(0, 31), (34, 34), (92, 92)],
     "abr": [(97, 98), (114, 114)],
     # structural JSON characters, quote, backslash, a letter and the two bytes of U+00E9
-    "jsonish": [(34, 34), (44, 44), (58, 58), (91, 93), (97, 97), (123, 123), (125, 125), (0xC3, 0xC3), (0xA9, 0xA9)],
+    "jsonish": [(34, 34), (44, 44), (58, 58), (91, 93), (97, 97), (123, 123), (125, 125)],
 }
 
 # class inclusion facts used to answer membership questions without a solver call
